@@ -502,7 +502,7 @@ func plansC07(thorough bool) []Plan {
 			{Name: "n3-byz3-apol", Cfg: Cfg{N: 3, T: 2, Byz: []int{3}, PhaseLen: 2}, Windows: true, Partial: true, Timely: true, Focus: "apol", Mixed: true, MaxReload: 1, ReloadMax: 6, MaxBeh: 100},
 			// the previous eon is finalised in the block in which this eon goes from dealing to accusing;
 			// Byzantine messages in the last block of / the first block after their phase
-			{Name: "n3-byz3-aligned", Cfg: Cfg{N: 3, T: 2, Byz: []int{3}, PhaseLen: 2, Overlap: true, OvBlock: 2}, Windows: true, Partial: true, Timely: true, Focus: "late", Repeat: 12},
+			{Name: "n3-byz3-aligned", Cfg: Cfg{N: 3, T: 2, Byz: []int{3}, PhaseLen: 2, Overlap: true, OvBlock: 2}, Windows: true, Partial: true, Timely: true, Focus: "late", Repeat: 8},
 			{Name: "n3-sim", Cfg: Cfg{N: 3, T: 2, Byz: []int{2}, PhaseLen: 3, Overlap: true}, Partial: true, MaxRej: 2, AccuseAny: true, MaxReload: 2, MaxLag: 3, Mixed: true, Simulate: 16},
 			{Name: "n4-sim", Cfg: Cfg{N: 4, T: 2, Byz: []int{2, 4}, PhaseLen: 2}, Partial: true, MaxRej: 2, AccuseAny: true, MaxReload: 2, MaxLag: 3, Simulate: 20},
 		}
